@@ -3,7 +3,7 @@ import random
 from .. import core, gen, ref
 from . import cu
 
-MODULES = ['DsdVerif.Props.C08', 'DsdVerif.Props.PyFuncs']
+MODULES = ['DsdVerif.Props.C08', 'DsdVerif.Props.PyFuncs', 'DsdVerif.Props.C08Dlc']
 GEN_FILES = ['PyFuncs']
 THEOREM_NAMES = ['loop_index_spec', 'loop_index_modes_agree', 'exterior_spec', 'not_connected_of_error', 'error_of_not_connected',
                  'makeLoopIndex_linear',
@@ -13,7 +13,10 @@ THEOREM_NAMES = ['loop_index_spec', 'loop_index_modes_agree', 'exterior_spec', '
 THEOREMS = ['Dsd.C08.' + t for t in THEOREM_NAMES] + ['Dsd.PyFuncs.' + t for t in [
     # make_loop_index / make_pair_table as written in the source (Gen/PyFuncs.lean, regenerated on every run)
     'py_make_loop_index_eq', 'py_loop_index_of_py_pair_table', 'py_loop_index_components_total',
-    'py_loop_index_raises_iff_disconnected', 'py_make_pair_table_eq']]
+    'py_loop_index_raises_iff_disconnected', 'py_make_pair_table_eq']] + ['Dsd.C08.' + t for t in [
+    # is_domainlevel_complement (Model/Dlc.lean follows the loop with its early return)
+    'dlc_true_iff', 'dlc_true_iff_unconditional', 'dlc_total', 'dlc_false_iff', 'dlc_false_iff_witness', 'dlc_error',
+    'dlc_of_make_pair_table', 'dlc_one_sided_of_make_pair_table', 'mpt_partner_valid']]
 ASSUMPTIONS = [
     'make_loop_index is hand-modelled on linear positions (Model/Complex.lean: loopStep, makeLoopIndex) and tied to the code by the '
     'correspondence stream `loop` (both `components` modes)',
@@ -35,7 +38,7 @@ MANIFEST = {
             'make_loop_index by exhaustive correspondence in both `components` modes and to the object views by the C03 / C08 streams; '
             'is_domainlevel_complement is decided on the real code against an independent reference.'
             ' STATEMENT LEVEL, FROM THE SOURCE: make_loop_index is transcribed statement by statement from the working tree (Gen/PyFuncs.lean) and proved equal to the model, in both modes, on every table make_pair_table returns (py_make_loop_index_eq, py_loop_index_of_py_pair_table); py_loop_index_raises_iff_disconnected: the source-derived function raises SecondaryStructureError exactly for disconnected complexes, py_loop_index_components_total: components mode never raises; on arbitrary ill-formed tables the transcription is run against the code (same faults).',
-    'note': 'is_domainlevel_complement is checked by the oracle only; trusted base as in DESIGN.md section 3.',
+    'note': 'is_domainlevel_complement: Model/Dlc.lean follows the loop (row-major, early return, look-up order) and is tied to the property by the correspondence stream ComplexS.is_domainlevel_complement; the side effects of ~ (creation of complement objects) are outside that model (C04 / C05 cover them); trusted base as in DESIGN.md section 3.',
     'technique': 'Lean 4 invariant proof over the loop-index scan (innermost enclosing pair = stack top) + connectivity by descent; correspondence check',
 }
 
@@ -64,6 +67,7 @@ def run(res, proof):
     clear_singletons(DomainS)
     SUB = type('MyComplex', (ComplexS,), {})
     doms = {n: DomainS(n, 5) for n in ('a', 'b', 'c')}
+    dlc_ops, dlc_impl = [], []
     doms.update({n + '*': ~d for n, d in list(doms.items())})
     for s in structs:
         res.evaluations += 1
@@ -127,6 +131,7 @@ def run(res, proof):
                 res.violation('is_domainlevel_complement', {'op': ['ComplexS.is_domainlevel_complement', ' '.join(names), s]},
                               repr(c.is_domainlevel_complement), repr(dlc))
             res.count('dlc_%s' % dlc)
+            dlc_ops.append(('dlc', ' '.join(names), s)); dlc_impl.append('ok %s' % c.is_domainlevel_complement)
             # a disconnected complex has no exterior / enclosed domains: the views raise, every time they are asked
             from dsdobjects import SecondaryStructureError as _SSE
             def raises_sse(attr):
@@ -169,6 +174,25 @@ def run(res, proof):
                 pt2 = ref.ref_pair_table(s2)
                 exd2 = [(si, di) for si, row in enumerate(pt2) for di, p in enumerate(row) if p is None and li2[si][di] in ext2]
                 end2 = [(si, di) for si, row in enumerate(pt2) for di, p in enumerate(row) if p is None and li2[si][di] not in ext2]
+                # domain-level views of the rotated object: every locus holds the domain the current sequence names there,
+                # and complementarity is a property of the complex, not of the rotation
+                seq2 = [str(x) for x in c.sequence]
+                rows2, cur = [], []
+                for x in seq2:
+                    if x == '+':
+                        rows2.append(cur); cur = []
+                    else:
+                        cur.append(x)
+                rows2.append(cur)
+                bad_dom = [(si, di) for si, row in enumerate(rows2) for di, nm in enumerate(row) if str(c.get_domain((si, di))) != nm
+                           or c.strand_length(si) != len(row)]
+                if bad_dom:
+                    res.violation('get_domain:after-rotation', {'op': ['ComplexS.get_domain after turns', ' '.join(names), s, 'turns+=%d' % k]},
+                                  'loci %r do not hold the domain of the current sequence %s' % (bad_dom[:3], ' '.join(seq2)), 'the domains of the current sequence')
+                if c.is_domainlevel_complement != dlc:
+                    res.violation('is_domainlevel_complement:after-rotation', {'op': ['ComplexS.is_domainlevel_complement after turns', ' '.join(names), s, 'turns+=%d' % k]},
+                                  repr(c.is_domainlevel_complement), repr(dlc))
+                dlc_ops.append(('dlc', ' '.join(seq2), s2)); dlc_impl.append('ok %s' % c.is_domainlevel_complement)
                 got_en = list(c.enclosed_domains)
                 got_ex = list(c.exterior_domains)
                 if got_en != end2 or got_ex != exd2:
@@ -185,6 +209,11 @@ def run(res, proof):
     try:
         model = core.run_driver(lines)
         core.compare_streams(res, 'complex_utils.loop_index', lines, impl, model)
+    except core.DriverBroken as e:
+        proof.problem('driver', str(e))
+    try:
+        dl = ['\t'.join(op) for op in dlc_ops]
+        core.compare_streams(res, 'ComplexS.is_domainlevel_complement', dl, dlc_impl, core.run_driver(dl))
     except core.DriverBroken as e:
         proof.problem('driver', str(e))
     # the source-derived make_loop_index on the same inputs, and on ARBITRARY tables (partners out of range, asymmetric,
